@@ -52,7 +52,11 @@ def dur_values(chk):
     return sorted(v for v in out if -DUR_MAX <= v <= DUR_MAX)
 
 
-_schema = [bpgen.M("T", [bpgen.F("t", 1, "message", kind="ts"), bpgen.F("d", 2, "message", kind="dur")])]
+_schema = [bpgen.M("T", [bpgen.F("t", 1, "message", kind="ts"), bpgen.F("d", 2, "message", kind="dur"),
+                         # the same two kinds in the other placements a field can have
+                         bpgen.F("ts", 3, "message", kind="ts", repeated=True), bpgen.F("ds", 4, "message", kind="dur", repeated=True),
+                         bpgen.F("ot", 5, "message", kind="ts", optional=True), bpgen.F("od", 6, "message", kind="dur", optional=True),
+                         bpgen.F("gt", 7, "message", kind="ts", group=0), bpgen.F("gd", 8, "message", kind="dur", group=0)], 1)]
 _cls = None
 _ref = None
 
@@ -107,6 +111,43 @@ def ts_oracle(chk, us, offset_min):
             chk.fail("timestamp-reference-json-misread", inp, want.ToJsonString())
     except Exception as e:
         chk.fail("timestamp-json-parse-raises", inp, "%s: %r" % (js, e))
+    if offset_min != 0 or us % 7 == 0:
+        placements(chk, "timestamp", dt, (want.seconds, want.nanos), us, inp)
+
+
+def placements(chk, kind, value, want_pair, want_json_us, inp):
+    """the same datetime / timedelta in a repeated field (twice, beside a neighbour), a proto3-optional field and a oneof
+    member: same (seconds, nanos) on the wire as the reference computes, JSON strings the reference reads as the same
+    instant / span, and the same value back from bytes and from JSON"""
+    from google.protobuf import timestamp_pb2, duration_pb2
+    C, R = classes()
+    rep, opt, grp = ("ts", "ot", "gt") if kind == "timestamp" else ("ds", "od", "gd")
+    for how, kw, read in (("repeated", {rep: [value, value]}, lambda m: list(getattr(m, rep))),
+                          ("optional", {opt: value}, lambda m: [getattr(m, opt)]),
+                          ("oneof", {grp: value}, lambda m: [getattr(m, grp)])):
+        inp2 = dict(inp, placement=how)
+        try:
+            m = C(**kw)
+            b = bytes(m)
+            r = R.FromString(b)
+            got = [(x.seconds, x.nanos) for x in (list(getattr(r, rep)) if how == "repeated" else [getattr(r, opt if how == "optional" else grp)])]
+            if any(g != want_pair for g in got):
+                chk.fail(kind + "-pair-differs-from-reference", inp2, "%r vs %r" % (got, want_pair))
+            if any(x != value for x in read(C().parse(b))):
+                chk.fail(kind + "-roundtrip", inp2, repr(read(C().parse(b))))
+            d = m.to_dict()
+            key = [k for k in d][0]
+            strs = d[key] if how == "repeated" else [d[key]]
+            for js in strs:
+                p = timestamp_pb2.Timestamp() if kind == "timestamp" else duration_pb2.Duration()
+                p.FromJsonString(js)
+                if (p.seconds, p.nanos) != want_pair:
+                    chk.fail(kind + "-json-misread-by-reference", inp2, "%s -> %r, expected %r" % (js, (p.seconds, p.nanos), want_pair))
+            if any(x != value for x in read(C().from_dict(d))):
+                chk.fail(kind + "-json-roundtrip", inp2, repr(d))
+        except Exception as e:
+            chk.fail(kind + "-placement-raises", inp2, repr(e))
+    chk.count(kind + "_placements")
 
 
 def dst_fold_stage(chk):
@@ -192,6 +233,8 @@ def dur_oracle(chk, us):
             chk.fail("duration-reference-json-misread", inp, want.ToJsonString())
     except Exception as e:
         chk.fail("duration-json-parse-raises", inp, "%s: %r" % (js, e))
+    if us % 7 == 0:
+        placements(chk, "duration", td, (want.seconds, want.nanos), us, inp)
 
 
 def run(chk, drv):
